@@ -318,6 +318,9 @@ func runLoop(c *Case) []string {
 				}
 			case "close":
 				if o.peer != nil {
+					// read what the sonic side wrote first: closing a socket with unread data sends RST, not FIN
+					_ = o.peer.SetReadDeadline(time.Now().Add(5 * time.Millisecond))
+					_, _ = io.Copy(io.Discard, o.peer)
 					_ = o.peer.Close()
 					o.peer = nil
 				} else if o.peerFd >= 0 {
